@@ -2,6 +2,7 @@ import PyYetiVerif.Lemmas.NasFloat
 import PyYetiVerif.Lemmas.NasFloatRat
 import PyYetiVerif.Lemmas.NasCards
 import PyYetiVerif.Lemmas.NasCardsTrip
+import PyYetiVerif.Lemmas.NasCardsLarge
 /-!
 # C12 — Nastran number fields: exact width, best precision; cards round-trip
 
@@ -340,6 +341,25 @@ theorem card_roundtrip_small (name : Str) (toks : List Tok) (keep : Bool) (hname
       dtb r = (if keep then [NasVal.str name] else []) ++
         dtb (toks.map fun t => cardVal (enc 8 formatFloat8 t)) :=
   wtcard8_roundtrip name toks keep hname hstar hf
+
+/-- **`card_roundtrip`, large-field forms** (`wtcard16`, `wtcard16d`): 16-wide fields, four per
+line, `*` continuation lines, the `*` in column 73 before every second line break and the final
+`*` line that makes the line count even.  For every card name ending in `*` (letter first, at most
+8 characters) and every list of fields whose formatted fields are card fields, the generic reader
+finds exactly one card and, up to trailing blank fields, returns the name (when kept) followed by
+the value of every written field. -/
+theorem card_roundtrip_large (name : Str) (toks : List Tok) (keep : Bool) (hname : NameOK name)
+    (hstar : name.getLast? = some '*') :
+    ((∀ t ∈ toks, CardField 16 (enc 16 formatFloat16 t)) →
+      ∃ text r, wtcard16 name toks = some text ∧ rdcards name keep text = [r] ∧
+        dtb r = (if keep then [NasVal.str name] else []) ++
+          dtb (toks.map fun t => cardVal (enc 16 formatFloat16 t))) ∧
+    ((∀ t ∈ toks, CardField 16 (enc 16 formatDouble16 t)) →
+      ∃ text r, wtcard16d name toks = some text ∧ rdcards name keep text = [r] ∧
+        dtb r = (if keep then [NasVal.str name] else []) ++
+          dtb (toks.map fun t => cardVal (enc 16 formatDouble16 t))) :=
+  ⟨fun hf => wtcard16_roundtrip formatFloat16 name toks keep hname hstar hf,
+   fun hf => wtcard16_roundtrip formatDouble16 name toks keep hname hstar hf⟩
 
 /-- non-vacuity: a card of 19 fields (three physical lines) with blanks spanning a line end. -/
 example : ∃ (name : Str) (toks : List Tok), NameOK name ∧ (∀ c ∈ name, c ≠ '*') ∧ toks.length = 19 ∧
